@@ -112,6 +112,9 @@ class NativeSym:
     def nt(self, clsqual, values):
         return resolve(clsqual)(*values)
 
+    def pylist(self, items):
+        return list(items)
+
     def odict(self, pairs):
         import collections
         return collections.OrderedDict(pairs)
